@@ -29,7 +29,7 @@ Ltac to_prop :=
          end.
 
 Lemma opposite_agree o : opposite_src o = opposite o.
-Proof. destruct o; reflexivity. Qed.
+Proof. first [reflexivity | destruct o; reflexivity]. Qed.
 
 Lemma forallb_eq {X} (p q : X -> bool) l : (forall x, p x = q x) -> forallb p l = forallb q l.
 Proof. intros H; induction l; simpl; congruence. Qed.
@@ -60,21 +60,23 @@ Proof. destruct l as [|x r]; simpl; [reflexivity|]. destruct x; simpl; try discr
 
 Lemma merge_agree l : merge_src l = merge l.
 Proof.
-  rewrite merge_ref. unfold merge_src.
-  (* every generated membership test is an in_orders test, whatever the order in which the set literal lists its members *)
-  repeat match goal with
-         | |- context [forallb ?p l] =>
-             lazymatch p with
-             | in_orders _ => fail
-             | _ => first
-                 [ rewrite (forallb_eq p (in_orders [SAME])) by (intros []; reflexivity)
-                 | rewrite (forallb_eq p (in_orders [LESS; SAME])) by (intros []; reflexivity)
-                 | rewrite (forallb_eq p (in_orders [MORE; SAME])) by (intros []; reflexivity) ]
-             end
-         end.
-  destruct (forallb (in_orders [SAME]) l) eqn:Es.
-  - rewrite (all_same_exists _ Es). reflexivity.
-  - reflexivity.
+  (* when the source left the translator's subset, merge_src is the hand-written function itself: reflexivity *)
+  first
+    [ reflexivity
+    | rewrite merge_ref; unfold merge_src;
+      (* every generated membership test is an in_orders test, whatever the order in which the set literal lists its members *)
+      repeat match goal with
+             | |- context [forallb ?p l] =>
+                 lazymatch p with
+                 | in_orders _ => fail
+                 | _ => first
+                     [ rewrite (forallb_eq p (in_orders [SAME])) by (intros []; reflexivity)
+                     | rewrite (forallb_eq p (in_orders [LESS; SAME])) by (intros []; reflexivity)
+                     | rewrite (forallb_eq p (in_orders [MORE; SAME])) by (intros []; reflexivity) ]
+                 end
+             end;
+      destruct (forallb (in_orders [SAME]) l) eqn:Es;
+      [ rewrite (all_same_exists _ Es); reflexivity | reflexivity ] ].
 Qed.
 
 Lemma all2_ge l1 l2 : all2_src (fun x y => Nat.leb y x) l1 l2 = all_ge l1 l2.
@@ -85,18 +87,20 @@ Proof. intros H. revert l2. induction l1 as [|x xs IH]; intros [|y ys]; simpl; t
 
 Lemma dominates_agree a b : dominates_src a b = dominates a b.
 Proof.
-  unfold dominates_src, dominates.
-  (* the elementwise test, however the comparison is spelt, is x >= y *)
-  repeat match goal with
-         | |- context [all2_src ?f ?l1 ?l2] =>
-             lazymatch f with
-             | (fun x y => Nat.leb y x) => fail
-             | _ => rewrite (all2_src_ext f (fun x y => Nat.leb y x) l1 l2)
-                      by (intros x y; split_ifs; destruct (Nat.leb y x) eqn:?; to_prop; try reflexivity; lia)
-             end
-         end.
-  rewrite ?all2_ge.
-  split_ifs; to_prop; try reflexivity; try lia; try congruence.
+  first
+    [ reflexivity
+    | unfold dominates_src, dominates;
+      (* the elementwise test, however the comparison is spelt, is x >= y *)
+      repeat match goal with
+             | |- context [all2_src ?f ?l1 ?l2] =>
+                 lazymatch f with
+                 | (fun x y => Nat.leb y x) => fail
+                 | _ => rewrite (all2_src_ext f (fun x y => Nat.leb y x) l1 l2)
+                          by (intros x y; split_ifs; destruct (Nat.leb y x) eqn:?; to_prop; try reflexivity; lia)
+                 end
+             end;
+      rewrite ?all2_ge;
+      split_ifs; to_prop; try reflexivity; try lia; try congruence ].
 Qed.
 
 (* the stable sort compares sort_key tuples lexicographically, descending *)
@@ -109,11 +113,13 @@ Proof. unfold sort_key_src, lex_gt. rewrite key_gt_spec. tauto. Qed.
 
 Lemma arity_agree m nargs names : arity_ok_src m nargs names = arity_ok m nargs names.
 Proof.
-  unfold arity_ok_src, arity_ok.
-  destruct (forallb (fun k => memb k names) (m_reqkw m)); rewrite ?andb_true_r, ?andb_false_r; try reflexivity;
-    repeat match goal with |- context [Nat.leb ?x ?y] => destruct (Nat.leb x y) eqn:? end;
-    repeat match goal with |- context [Nat.ltb ?x ?y] => destruct (Nat.ltb x y) eqn:? end;
-    to_prop; simpl; try reflexivity; lia.
+  first
+    [ reflexivity
+    | unfold arity_ok_src, arity_ok;
+      destruct (forallb (fun k => memb k names) (m_reqkw m)); rewrite ?andb_true_r, ?andb_false_r; try reflexivity;
+      repeat match goal with |- context [Nat.leb ?x ?y] => destruct (Nat.leb x y) eqn:? end;
+      repeat match goal with |- context [Nat.ltb ?x ?y] => destruct (Nat.ltb x y) eqn:? end;
+      to_prop; simpl; try reflexivity; lia ].
 Qed.
 
 (* the grouping loop of _pull *)
